@@ -17,7 +17,7 @@ func init() {
 	)
 	c10Reasons = []siteReason{
 		// --- disc
-		{"(*disc.Member).HandleMessage", "panic", "\"programming error: msgType", "unreachable: decodeTagAndMembershipList accepts exactly the three types the switch handles; on a decoding error the tag is empty, which is never a key of the tag table (keys are 32-byte HMACs), so the function returned before the switch"},
+		{"(*disc.Member).HandleMessage", "panic", "\"programming error: msgType", "unreachable: decodeTagAndMembershipList accepts exactly the three types the switch handles; on a decoding error the tag is empty, which is never a key of the tag table (keys are 32-byte HMACs), so the function returned before the switch — all four premises are decided on every run by C10.R2"},
 		{"disc.encodeTagAndMembershipList", "panic", "", "locally produced arguments: the tag is an HMAC-SHA256 output (32 bytes) and the type is one of the three constants"},
 		{"disc.encodeTagAndMembershipList", "bounds", "make(slice)[", "buffer allocated with 33+2·len(peers) bytes in the same function and filled from offset 33 with stride 2, one step per peer"},
 		{"(*disc.Member).handleResponse", "block", "", "the channel has len(Membership)−1 slots and at most one send per authenticated member happens (LoadOrStore guard C07.G3, tag ownership C07.G1)"},
